@@ -293,7 +293,8 @@ def run_harness(h, replay_bins, tier_caps):
     if not timed_out and parse_kani(out)["failed"]:
         # a counterexample exists: run again with concrete playback to obtain the concrete draws
         logfile = os.path.join(LOGS, name + ".playback.log")
-        rc, timed_out, dt = run_cmd(mk(True), KANI_DIR, cap, mem, logfile)
+        # (kani-driver parses the full JSON trace in memory: give the playback run more room)
+        rc, timed_out, dt = run_cmd(mk(True), KANI_DIR, cap, max(mem or 0, 40), logfile)
         out = open(logfile, errors="replace").read()
     res["wall_s"] = round(time.time() - t0, 1)
     res["cmd"] = " ".join(cmd)
@@ -489,7 +490,9 @@ def decide(prop, tier, harnesses, meta, seed=0, jobs=None, only=None):
     caps = dict(TIERS[tier])
     if jobs:
         caps["jobs"] = jobs
-    hs = [h for h in harnesses if prop in h["props"] and (tier == "thorough" or h.get("tier", "quick") == "quick")]
+    hs = [h for h in harnesses if prop in h["props"] and not str(h.get("tier")).startswith("off") and (tier == "thorough" or h.get("tier", "quick") == "quick")]
+    if only and os.environ.get("VERIF_INCLUDE_OFF"):
+        hs = [h for h in harnesses if prop in h["props"]]
     if only:
         hs = [h for h in hs if re.search(only, h["name"])]
     # the seed only permutes scheduling order: verdicts are solver verdicts
